@@ -416,10 +416,28 @@ class PE:
     x_Upvar = x_Var
 
     def x_Borrow(self, e, env):
+        if e.get("mut"):
+            inner = e["e"]
+            while inner.get("k") in ("Deref", "Borrow", "Scope", "Use") and inner.get("e") is not None and inner.get("k") != "Field":
+                nxt = inner["e"]
+                if inner.get("k") == "Deref" and nxt.get("k") == "Borrow":
+                    inner = nxt["e"]
+                    continue
+                break
+            if inner.get("k") == "Field":
+                # `&mut place.field` of a concrete aggregate: a reference through which the callee can update the field
+                try:
+                    base = self.ev(inner["lhs"], env)
+                except Undecided:
+                    base = None
+                if isinstance(base, Adt) and inner["name"] in base.fields:
+                    return Ref(base, inner["name"])
         return self.ev(e["e"], env)
 
-    x_Deref = x_Borrow
-    x_PtrCoerce = x_Borrow
+    def x_Deref(self, e, env):
+        return self.ev(e["e"], env)
+
+    x_PtrCoerce = x_Deref
 
     def x_Try(self, e, env):
         v = self.ev(e["e"], env)
@@ -447,6 +465,19 @@ class PE:
     def force(self, v):
         if isinstance(v, Future):
             return self._call_now(v.node, v.args, v.env)
+        if isinstance(v, tuple) and v and v[0] == "closure":
+            # an `async { .. }` / `async move { .. }` block handed to .await or block_on: its body runs now
+            try:
+                cf = self.F.fns.get(v[1]) or {}
+                allp = (cf.get("thir") or {}).get("params", [])
+                is_block = bool(allp) and "async block" in (allp[0].get("ty") or "")
+                params = [q for q in allp if q.get("pat") is not None]
+                if is_block:
+                    return self.apply(v, [Sym("TASK_CONTEXT")] * len(params))
+                if not params:
+                    return self.apply(v, [])
+            except _Ret as r:
+                return r.v
         return v
 
     def x_Cast(self, e, env):
@@ -514,6 +545,9 @@ class PE:
         b = self.ev(e["lhs"], env)
         i = self.ev(e["index"], env)
         if isinstance(b, Tup) and isinstance(i, int):
+            if not 0 <= i < len(b.items):
+                self.events.append(("panic", "index out of bounds"))
+                raise Undecided("index %d out of bounds of a %d-element sequence" % (i, len(b.items)))
             return b.items[i]
         if isinstance(b, tuple) and b and b[0] == "bytes" and isinstance(i, int):
             return b[1][i]
@@ -637,6 +671,10 @@ class PE:
         for s in e.get("stmts", []):
             if s["k"] == "Let":
                 v = self.ev(s["init"], env) if s.get("init") is not None else Sym("uninit")
+                if s.get("init") is not None and s["pat"].get("k") == "Binding":
+                    src = strip(s["init"])
+                    if src.get("k") in ("Var", "Upvar") and isinstance(env.get(src["var"]["id"]), Ref):
+                        v = env[src["var"]["id"]]          # moving / re-binding a reference keeps it a reference
                 if not self.match(s["pat"], v, env):
                     if s.get("else"):
                         self.ev(s["else"], env)
@@ -799,7 +837,7 @@ class PE:
         d = fn.get("def", "") or ""
         res = fn.get("res") or d
         name = fn.get("name")
-        args = [self.ev(a, env) for a in e["args"]]
+        args = [self._arg(a, env) for a in e["args"]]
         if not d and e.get("fun") is not None:
             # indirect call through a value: a function item / closure passed as an argument
             fv = self.ev(e["fun"], env)
@@ -818,8 +856,21 @@ class PE:
             return Future(e, args, env)          # an async fn of the crate: performed when awaited
         return self._call_now(e, args, env)
 
+    def _arg(self, a, env):
+        """An argument value; a (re)borrow of a variable that holds a place reference passes the reference on."""
+        s_ = a
+        while isinstance(s_, dict) and s_.get("k") in ("Borrow", "Deref", "Scope", "Use", "PtrCoerce") and isinstance(s_.get("e"), dict):
+            s_ = s_["e"]
+        if isinstance(s_, dict) and s_.get("k") in ("Var", "Upvar") and isinstance(env.get(s_["var"]["id"]), Ref):
+            return env[s_["var"]["id"]]
+        return self.ev(a, env)
+
     def _call_now(self, e, args, env):
         fn = e["fn"]
+        raw_args = args
+        callee_is_crate = ((fn.get("res") or fn.get("def") or "") in self.F.fns)
+        if not callee_is_crate:
+            args = [a.get() if isinstance(a, Ref) else a for a in args]        # foreign code sees values
         d = fn.get("def", "") or ""
         res = fn.get("res") or d
         name = fn.get("name")
@@ -1031,6 +1082,9 @@ class PE:
             return Adt("seq-iter", "It", {"0": a0})
         if name == "iter_mut" and len(args) == 1:
             return Adt("seq-iter", "It", {"0": a0, "mut": True})
+        if name == "push" and len(args) == 2 and not is_iter and d.startswith("alloc::vec"):
+            a0.items.append(args[1])
+            return UNIT
         if name == "get" and len(args) == 2 and isinstance(args[1], int) and not is_iter:
             return some(items[args[1]]) if 0 <= args[1] < len(items) else NONE
         if name in ("first", "last") and len(args) == 1 and not is_iter:
@@ -1110,6 +1164,8 @@ class PE:
             c = self._ctor(f[1], args)
             if c is not None:
                 return c
+            if len(args) == 1 and f[1] in ("core::option::Option::Some", "core::result::Result::Ok", "core::result::Result::Err"):
+                return {"Some": some, "Ok": ok, "Err": err}[f[1].rsplit("::", 1)[1]](args[0])
             if f[1] in self.F.fns:
                 return self.call_fn(f[1], args)
             rec = f[2] if len(f) > 2 and isinstance(f[2], dict) else {}
